@@ -27,7 +27,8 @@ import common as C
 import c09lib as L
 
 PID = "C10"
-TARGETS = ["Stats/WeightedProofs.vo", "Props/C10.vo"]
+# built in coq/ (independent of the source text); Gen_Stats / GenAgree / Props are compiled per tree (c09lib.StatsTree)
+TARGETS = ["Stats/WeightedProofs.vo", "Stats/TimestampProofs.vo", "Stats/GenericTotal.vo"]
 
 GETTERS = [
     ("wmean", "weighted_mean", lambda t: t.weighted_mean()),
@@ -739,7 +740,13 @@ def describe_ops(case):
 def main(tier: str) -> int:
     L.quiet_import()
     run = C.Run(PID, tier)
-    proofs_ok = run.check_proofs(TARGETS, extra_tb=[
+    try:
+        tree = L.StatsTree().prepare()
+    except Exception as exc:  # noqa
+        run.violation("translated-model-not-buildable", f"the model could not be regenerated from the source: {type(exc).__name__}: {exc}",
+                      {"unchecked": "coq/Stats/GenAgree.v"}, found_input=False)
+        return run.finish()
+    proofs_ok = L.check_proofs(run, tree, TARGETS, extra_tb=[
         "math.sqrt over the rationals is an uninterpreted function the theorems quantify over (stdev is stated structurally); "
         "in the correspondence check it is the binary64 square root",
         "Coq primitive floats and CPython floats round + - * / sqrt identically (re-validated by every bit-exact correspondence run)",
@@ -836,6 +843,34 @@ def main(tier: str) -> int:
         run.add_sample({"class": case["cls"], "subscribers": case["subs"], "calls": describe_ops(case)[:12],
                         "last_snapshot": {k: (v if k in ("n", "sw") else v[1]) for k, v in last.items()}})
 
+    # ---- the regenerated model no longer equals the proved one: look harder for a concrete failing input
+    tie = tree.broken_for(PID)
+    if tie and not found:
+        rng2 = random.Random(run.seed * 7919 + 1010)
+        extra = []
+        for i in range(max(n_w, n_t)):
+            if i < n_w:
+                extra.append(gen_weighted_case(rng2, i))
+            if i < n_t:
+                extra.append(gen_ts_case(rng2, i))
+        extra += [gen_weighted_case(rng2, 0, long_n=longs[0]), gen_ts_case(rng2, 0, long_n=longs[0])]
+        tried = 0
+        for case in extra:
+            tried += 1
+            try:
+                steps = run_case(case)
+            except Exception:  # noqa
+                continue
+            bad, _ = oracle(case, steps)
+            if bad:
+                found[bad[0]] = (case, bad)
+                break
+        run.cov["extra_cases_searched_after_broken_tie"] = tried
+    if tie:
+        run.cov["source_translation"]["tie"] = {"status": "broken", **{k: v for k, v in tie.items() if k != "failures"}}
+    else:
+        run.cov["source_translation"]["tie"] = {"status": "checked"}
+
     for sig, (case, bad) in found.items():
         small = shrink_case(case, sig)
         b, _ = oracle(small, run_case(small))
@@ -910,6 +945,8 @@ def main(tier: str) -> int:
                        "first_difference (step, getter index in wsnap_checks / tssnap_checks; 99 = how the call ended)": diag,
                        "relation": "Stats.Weighted.wcase_ok" if case["kind"] == "weighted" else "Stats.Timestamp.tscase_ok"},
                       found_input=False)
+    if tie and not found:
+        L.report_broken_tie(run, tree, {"model_impl_mismatching_cases": len(mism)})
     if not proofs_ok and not run.violations:
         run.violation("proof-broken", "a C10 proof obligation no longer checks: " + getattr(run, "proof_log", "")[-800:],
                       {"theorems": run.cov.get("theorems")}, found_input=False)
